@@ -93,7 +93,7 @@ META = {
  ),
  "C08": dict(
   design_ref="DESIGN.md §5 C08",
-  technique="rapid differential: caching client vs uncached client on the same scripted node (sequential state machine + concurrent mixes), request-count bounds, scripted head announcements",
+  technique="rapid differential: caching client vs uncached client on the same scripted node (sequential state machine + concurrent mixes), request-count bounds (incl. readers that arrive while the download is held inside the node), scripted head announcements",
   text="Generated search over request sequences, concurrent mixes, max-read settings, injected failures and head announcement orders; transparency is decided by comparison with an uncached client, reuse bounds and no-cached-errors by the node's request counts, head validity by membership in the announced set.",
   note="Trusted: sim node (request log and counts), the 'nocache' switch of jrpc2.New for the reference client.",
  ),
